@@ -37,6 +37,16 @@ func (ex *Exec) funcEnv(fr *Frame, st *State) *SpecEnv {
 			env.entry[p] = top.entryArgs[i]
 		}
 	}
+	env.tparams = typeParamMap(top.fn)
+	for _, lv := range sc.logical {
+		if top.logical == nil {
+			top.logical = map[*types.Var]Val{}
+		}
+		if _, ok := top.logical[lv]; !ok {
+			top.logical[lv] = Fresh("logical."+lv.Name(), leafSort(lv.Type()))
+		}
+		env.objs[lv] = top.logical[lv]
+	}
 	ex.bindCaptures(fr, env, sc, st.reach)
 	return env
 }
@@ -309,4 +319,18 @@ func (ex *Exec) loopExit(fr *Frame, h *ssa.BasicBlock, st *State) {
 	for _, cl := range spec.ExitEnsures {
 		ex.oblige(fr, st, fmt.Sprintf("loop%d.exit", ord), cl.Label, env.evalBool(cl.Text), token.NoPos, cl.Text)
 	}
+}
+
+
+func typeParamMap(fn *ssa.Function) map[*types.TypeParam]types.Type {
+	for f := fn; f != nil; f = f.Parent() {
+		if f.TypeParams().Len() > 0 && len(f.TypeArgs()) == f.TypeParams().Len() {
+			m := map[*types.TypeParam]types.Type{}
+			for i := 0; i < f.TypeParams().Len(); i++ {
+				m[f.TypeParams().At(i)] = f.TypeArgs()[i]
+			}
+			return m
+		}
+	}
+	return nil
 }
